@@ -17,6 +17,9 @@ fn replay_case(prop: &str, case: &Value) -> Vec<Violation> {
     match case["engine"].as_str().unwrap_or("") {
         "tok" => props::tok::replay(prop, case),
         "pair" => props::pair::replay(case),
+        "rename" => props::rename::replay(case),
+        "history" => props::history::replay(case),
+        "listing" => props::listing::replay(prop, case),
         "layout11" | "layout12" | "layout13" => props::layout::replay(case),
         "marker" => props::marker::replay(case),
         "cli" => props::cli::replay(prop, case),
@@ -80,6 +83,9 @@ fn main() {
         "C06" => props::marker::run(&r),
         "C20" => props::cli::run(&r),
         "C11" | "C12" | "C13" => props::layout::run(&r, prop),
+        "C15" | "C16" | "C17" => props::listing::run(&r, prop),
+        "C18" => props::rename::run(&r),
+        "C19" => props::history::run(&r),
         "C09" => props::tag::run(&r),
         "C10" => props::pair::run(&r),
         _ => {
